@@ -88,14 +88,16 @@ CHECKS = {
         technique="deterministic simulation of the real nREPL server threads under the seeded shuttle scheduler (random and "
                   "PCT), simulated timers, fault-injecting bencode transport; oracle over the totally ordered wire log",
         text="Seeded client workloads x seeded schedules: every spawn, channel operation, join, sleep, timer expiry and "
-             "evaluation step of the real reader/dispatcher, session workers, output flushers, SIGINT watchdog and writer "
-             "is a decision of one seeded scheduler. Oracle over the wire log: exactly one `done` per delivered request id "
+             "evaluation step of the real serve_connection (reader/dispatcher, shutdown sequence), session workers, output "
+             "flushers, SIGINT watchdog and writer_thread - for one or two concurrently served connections, each driven by a "
+             "simulated client (pipelining or waiting for `done`, chunked sends, disconnect, EOF mid-message) - is a decision of "
+             "one seeded scheduler. Oracle over the wire log: exactly one `done` per delivered request id "
              "and nothing with that id after it; stdout/stderr tokens (self-numbering) arrive complete, in order, before "
              "the done - for interrupted evals the count is cross-checked against the program's own counter read back by a "
              "later eval; value/ex before done; per-session done order; cross-session isolation; clean termination.",
-        note="A clean batch is evidence, not proof: schedules are sampled. TcpStream, the accept loop and the two small "
-             "loops of serve_connection/writer_thread are re-enacted, not executed. Timers are modelled as nondeterministic "
-             "expiry. The std Mutex buffers and the AtomicBool flags are not scheduling points (argued sound in DESIGN.md).",
+        note="A clean batch is evidence, not proof: schedules are sampled. The accept loop is not executed and TcpStream is an "
+             "in-memory endpoint (hook H5) with injected EINTR, short reads/writes and EPIPE. Timers are modelled as "
+             "nondeterministic expiry. The std Mutex buffers and the AtomicBool flags are not scheduling points (argued sound in DESIGN.md).",
         design_ref="DESIGN.md section 3, C30",
     ),
     "C31": dict(
@@ -248,8 +250,8 @@ def main():
              "kind_free_text": "in-process simulated JSON session: real reader/worker handlers, simulator-owned sequencing, "
                                "step-indexed fault injection through hook H2"},
             {"name": "threadsim", "path": "/verif/sim/src/nrepl_api.rs", "serves_properties": ["C30", "C31"],
-             "kind_free_text": "real nREPL server threads under the seeded shuttle scheduler with simulated timers and a "
-                               "fault-injecting bencode transport"},
+             "kind_free_text": "real nREPL server threads (serve_connection, writer, workers, flushers, watchdog; 1-2 connections) "
+                               "under the seeded shuttle scheduler with simulated timers and a fault-injecting in-memory socket"},
             {"name": "worldsim", "path": "/verif/harness/worldsim.py", "serves_properties": ["C24", "C25", "C26", "C28"],
              "kind_free_text": "the real binary in a seeded simulated world (scratch fs, canary on PATH, loaded/stalled/closed "
                                "stdin, chunked framed streams, EOF at arbitrary byte, step-indexed Ctrl-C through VERIF_FAULTS)"},
